@@ -11,10 +11,116 @@ RULES = [
      "{ byte nvDigest[digestSize]; sha256.finalize(nvDigest); Memory::copy(hashKey, nvDigest, digestSize); }",
      1, "R5: goto-cc rejects the cast to reference-to-array; finalize writes exactly digestSize bytes "
         "through the reference, so finalizing into a temporary and copying 32 bytes is equivalent"),
+    # ---- String.hpp member subset (DESIGN.md P8)
+    ("include/nstd/String.hpp", "regex",
+     r"  template<usize N> String\(const char\(&str\)\[N\]\) : data\(&_data\)\n  \{\n    _data\.ref = 0;\n    _data\.str = str;\n    _data\.len = N - 1;\n  \}\n",
+     "", 1, "R2: goto-cc cannot instantiate template<usize N> members; the literal-attached state (ref 0, foreign str, len) "
+            "is built in harnesses through attach(), whose body assigns the same three fields"),
+    ("include/nstd/String.hpp", "regex",
+     r"  template<usize N> (String operator\+|bool operator==|bool operator!=)\(const char ?\(&str\)\[N\]\) const \{[^\n]*\}\n",
+     "", 3, "R2: template<usize N> operator+/==/!= for literals deleted (remaining members do not call them)"),
+    ("include/nstd/String.hpp", "regex",
+     r"  bool toBool\(\) const\n  \{.*?\n  \}\n(?=\n  String token)",
+     "  bool toBool() const;\n", 1, "R2: toBool() uses the deleted literal templates; declaration kept, body dropped (not verified)"),
+    ("include/nstd/String.hpp", "literal",
+     '  static String fromBool(bool value) {return value ? String("true") : String("false");}\n',
+     "  static String fromBool(bool value);\n", 1, "R2: fromBool() uses the deleted literal constructor; declaration kept, body dropped (not verified)"),
+    ("include/nstd/String.hpp", "regex",
+     r"  operator const char\*\(\)\n  \{\n      if\(data->str\[data->len\]\)\n          const_cast<String\*>\(this\)->detach\(data->len, data->len\);\n      return data->str;\n  \}\n\n",
+     "", 1, "R3: the non-const operator const char*() gets the same symbol name as the const overload in goto-cc; "
+            "its body is byte-identical to the const one (this rule matches the exact text), which remains"),
+    ("include/nstd/String.hpp", "literal", "  operator char*()\n", "  char* nvMutable()\n", 1,
+     "R4: goto-cc names every conversion operator 'operatorname'; the mutable conversion is renamed (name only)"),
+    # ---- RefCount.hpp: member templates of Ptr (DESIGN.md P12)
+    ("include/nstd/RefCount.hpp", "regex", r"    template<class [DC]> friend class Ptr;\n", "", 2,
+     "R6: friend templates rejected by goto-cc; access only (harness overrides access)"),
+    ("include/nstd/RefCount.hpp", "regex",
+     r"    template <class D> Ptr\(const Ptr<D>& other\) : refObj\(other\.refObj\), obj\(other\.obj\)\n    \{\n      if\(refObj\)\n        Atomic::increment\(refObj->ref\);\n    \}\n\n",
+     "", 1, "R6: converting copy constructor template deleted (goto-cc cannot resolve member-template overloads); body identical to the copy constructor, which is verified"),
+    ("include/nstd/RefCount.hpp", "regex",
+     r"    template <class D> Ptr\(D\* obj\) : refObj\(obj\), obj\(obj\)\n    \{\n      if\(refObj\)\n        Atomic::increment\(refObj->ref\);\n    \}\n\n",
+     "", 1, "R6: constructor template from a raw pointer deleted (unsupported member template constructor); NOT verified -- "
+            "harnesses attach raw pointers through operator=(C*)"),
+    ("include/nstd/RefCount.hpp", "regex", r"    template <class D> Ptr& operator=\(const Ptr<D>& other\)\n    \{.*?\n    \}\n\n",
+     "", 1, "R6: converting assignment template deleted; body identical to operator=(const Ptr&), which is verified"),
+    ("include/nstd/RefCount.hpp", "regex", r"    template <class D> bool operator[=!]=\([^\n]*\n", "", 4,
+     "R6: comparison templates deleted (one-line pointer comparisons, not part of C09)"),
+    ("src/String.cpp", "literal", "  char* dest = result;\n", "  char* dest = result.nvMutable();\n", 1,
+     "R4: call site of the renamed conversion operator (String::fromHex)"),
+    ("src/String.cpp", "literal", "    char* out = (char*)result;\n", "    char* out = result.nvMutable();\n", 1,
+     "R4: call site of the renamed conversion operator (String::fromBase64)"),
 ]
 
 
+# Function slices: files the front end cannot take whole (variadic printf family, POSIX headers).
+# (source file, output file, [exact first lines of the function definitions to extract], prelude)
+# The text between the signature line and the matching closing brace is copied VERBATIM (after the
+# rules above); everything else of the file is dropped and so not verified.
+SLICES = [
+    ("src/String.cpp", "src/String.codecs.slice.cpp",
+     ["String String::fromHex(const byte* data, usize size)", "String String::fromBase64(const String& data)"],
+     "#include <nstd/String.hpp>\n"),
+]
+
+
+def _extract_function(text, first_line, fname):
+    i = text.find("\n" + first_line + "\n")
+    if i < 0 or text.count("\n" + first_line + "\n") != 1:
+        raise RuntimeError("slice anchor lost in %s: %r" % (fname, first_line))
+    i += 1
+    j = text.index("{", i)
+    depth, k = 0, j
+    in_str = in_chr = in_line = in_block = False
+    while k < len(text):
+        c = text[k]
+        two = text[k:k + 2]
+        if in_line:
+            if c == "\n":
+                in_line = False
+        elif in_block:
+            if two == "*/":
+                in_block = False
+                k += 1
+        elif in_str:
+            if c == "\\":
+                k += 1
+            elif c == '"':
+                in_str = False
+        elif in_chr:
+            if c == "\\":
+                k += 1
+            elif c == "'":
+                in_chr = False
+        elif two == "//":
+            in_line = True
+        elif two == "/*":
+            in_block = True
+        elif c == '"':
+            in_str = True
+        elif c == "'":
+            in_chr = True
+        elif c == "{":
+            depth += 1
+        elif c == "}":
+            depth -= 1
+            if depth == 0:
+                return text[i:k + 1] + "\n"
+        k += 1
+    raise RuntimeError("unbalanced braces slicing %r in %s" % (first_line, fname))
+
+
 def apply(tree):
+    fired = _apply_rules(tree)
+    for (src, out, firsts, prelude) in SLICES:
+        text = open(os.path.join(tree, src)).read()
+        parts = [prelude] + [_extract_function(text, f, src) for f in firsts]
+        open(os.path.join(tree, out), "w").write("\n".join(parts))
+        fired.append({"file": src, "kind": "slice", "pattern": "; ".join(firsts), "count": len(firsts),
+                      "why": "function slice -> %s (verbatim function texts; the rest of the file is dropped)" % out})
+    return fired
+
+
+def _apply_rules(tree):
     fired = []
     for (f, kind, pat, rep, count, why) in RULES:
         p = os.path.join(tree, f)
